@@ -956,8 +956,15 @@ def _expand_generator_for(gen, call, skip_self, self_expr, target, loop_body) ->
         def visit_Expr(self, node):
             if isinstance(node.value, ast.Yield):
                 val = self.visit(node.value.value) if node.value.value is not None else ast.Constant(value=None)
-                assign = ast.Assign(targets=[copy.deepcopy(target)], value=val)
-                return [assign] + [copy.deepcopy(b) for b in loop_body]
+                tnames = {n.id for n in ast.walk(target) if isinstance(n, ast.Name)}
+                if isinstance(target, ast.Tuple) and isinstance(val, ast.Tuple) and len(target.elts) == len(val.elts) \
+                        and not any(isinstance(e, ast.Starred) for e in list(target.elts) + list(val.elts)) \
+                        and not any(isinstance(n, ast.Name) and n.id in tnames for e in val.elts for n in ast.walk(e)):
+                    # `k, f = (a, b)`: one plain assignment per component (nothing on the right mentions a target)
+                    assigns = [ast.Assign(targets=[copy.deepcopy(t)], value=v) for t, v in zip(target.elts, val.elts)]
+                else:
+                    assigns = [ast.Assign(targets=[copy.deepcopy(target)], value=val)]
+                return assigns + [copy.deepcopy(b) for b in loop_body]
             self.generic_visit(node)
             return node
 
